@@ -153,10 +153,12 @@ impl Peer {
                     }
                     for _ in 0..answers {
                         let reply = b"\x1b[?62;c";
+                        // counted before the reply is written: whoever has read the reply can
+                        // rely on the count (and on `received`) being up to date
+                        st.da1_answered.fetch_add(1, Ordering::SeqCst);
                         unsafe {
                             libc::write(master, reply.as_ptr() as *const libc::c_void, reply.len());
                         }
-                        st.da1_answered.fetch_add(1, Ordering::Relaxed);
                     }
                     let pause = st.pause_us.load(Ordering::Relaxed);
                     if pause > 0 {
